@@ -550,7 +550,6 @@ def inventory():
                 if kind == "arith":
                     # `T: Clone + Copy`, `impl Trait + 'a`: a sum of CamelCase names / lifetimes is a
                     # trait bound, not arithmetic
-                    mm = re.search(r"([A-Za-z_]\w*)\s\+\s('?[A-Za-z_]\w*)\Z", src[max(0, m.start() - 40) : m.end() + 40][: 40 + (m.end() - m.start()) + 40])
                     lft = re.search(r"([A-Za-z_]\w*)\s*\Z", src[max(0, m.start() - 40) : m.start() + 1])
                     rgt = re.match(r"\s*[+\-*]\s('?[A-Za-z_]\w*)", src[m.start() + 1 :])
                     if lft and rgt and src[m.start() + 1 : m.end()].strip().startswith("+") and lft.group(1)[0].isupper() \
